@@ -2,6 +2,8 @@
 //  (1) archives (reference-encoded VOL and CLM): membership/index lookup over all case and "./" variants, index bounds
 //  (2) resource manager: enumeration of directory layouts (each name loose / in v1.vol / in v2.vol) x all queries
 #include "mc/mc.hpp"
+#include <cstdio>
+#include <cctype>
 #include "ref/ref_vol.hpp"
 #include "ref/ref_clm.hpp"
 #include "ResourceManager.h"
@@ -223,7 +225,7 @@ void resourceLayout(Ctx& ctx, const Layout& L, const std::string& label)
 	}
 	// --- type listings ---
 	auto extOf = [](const std::string& n) { auto d = n.rfind('.'); return d == std::string::npos || d == 0 ? std::string() : n.substr(d); };
-	for (const std::string& e : { std::string(".txt"), std::string("txt"), std::string(".TXT"), std::string(".map"), std::string(".vol"), std::string(".clm"), std::string(".zzz"), std::string(".tx2"), std::string("") }) for (int access = 0; access < 2; ++access) {
+	for (const std::string& e : { std::string(".txt"), std::string("txt"), std::string(".TXT"), std::string(".map"), std::string(".vol"), std::string(".clm"), std::string(".zzz"), std::string(".tx2"), std::string(".tx3"), std::string("") }) for (int access = 0; access < 2; ++access) {
 		std::string key = "GetAllFilenamesOfType('" + e + "', " + (access ? "true" : "false") + ")";
 		ctx.sub(label + " " + key);
 		std::vector<std::string> got;
@@ -305,6 +307,8 @@ void build(Ctx& ctx)
 		// that holds two names equal ignoring case (the reader accepts such a volume; type listings must still list one of them)
 		L.place["n..o.txt"] = 1; L.place["v..2.txt"] = 2; L.place["q{1].txt"] = 2; L.place["q[1].txt"] = 4;
 		if ((a + c) % 2 == 0) { L.place["dupA.tx2"] = 4; L.place["DUPA.TX2"] = 4; }
+		// every fourth layout: a hundred names of one type in the first volume and the same hundred, spelled in upper case, in the second
+		if ((a + b + c) % 4 == 1) for (int i = 0; i < 100; ++i) { char n1[16], n2[16]; std::snprintf(n1, sizeof n1, "f%03d.tx3", i); std::snprintf(n2, sizeof n2, "F%03d.TX3", i); L.place[n1] = 2; L.place[n2] = 4; }
 		L.rootName = (a + b + c) % 4 == 0 ? "txt_a_vol_root" : "res";
 		L.unsortedVolumes = ((a ^ b ^ c ^ s) & 1) != 0;
 		L.rootSpelling = int((gLayouts.size() * 7 + std::size_t(a)) % 6);
@@ -323,7 +327,8 @@ void runCase(std::size_t i, Ctx& ctx)
 		const Layout& L = gLayouts[j];
 		static const char* spell[] = { "absolute", "\"\"", "\".\"", "\"./\"", "absolute/", "../../name from sub" };
 		std::string label = "layout[" + L.rootName + " as " + spell[L.rootSpelling] + (L.unsortedVolumes ? ", volume members in reverse order" : "") + "]";
-		for (auto& p : L.place) label += " " + p.first + ":" + std::string(p.second & 1 ? "L" : "-") + (p.second & 2 ? "1" : "-") + (p.second & 4 ? "2" : "-");
+		for (auto& p : L.place) if (p.first.size() < 5 || p.first.substr(p.first.size() - 4) != ".tx3" ) { std::string lower = p.first; for (auto& ch : lower) ch = char(std::tolower(static_cast<unsigned char>(ch))); if (lower.size() > 4 && lower.substr(lower.size() - 4) == ".tx3") continue; label += " " + p.first + ":" + std::string(p.second & 1 ? "L" : "-") + (p.second & 2 ? "1" : "-") + (p.second & 4 ? "2" : "-"); }
+		if (L.place.count("f000.tx3")) label += " +100 .tx3 names in each volume";
 		resourceLayout(ctx, L, label);
 		ctx.outcome(mc::fnv(label));
 		if (j == 9) ctx.sample(label + ": every query name x case variants x ./ x accessArchives; rooted paths; directory names; 8 extensions; 6 patterns; containing archive");
